@@ -1,58 +1,119 @@
-use hir::common::Ty;
-use internment::Intern;
+//! Entry points for Engine A (llsym): each `extern "C"` function calls the real code of /repo's crates and checks a
+//! property in ordinary Rust; 0 means "held on this input". The crate is compiled to LLVM IR and executed
+//! symbolically; the same build is loaded as a shared library for native replay.
+#![allow(clippy::missing_safety_doc)]
+
 use std::slice;
 
-fn mk(k: u8, w: u8) -> Ty { match k { 0 => Ty::IInt(w), 1 => Ty::UInt(w), 2 => Ty::Float(w), 3 => Ty::Bool, _ => Ty::Nil } }
-#[no_mangle]
-pub extern "C" fn harness_fit(k1: u8, w1: u8, k2: u8, w2: u8) -> u32 {
-    let a = mk(k1, w1); let b = mk(k2, w2);
-    (a.can_fit_into(&b) as u32) | ((a.can_cast_to(&b) as u32) << 1) | ((a.is_weak_replaceable_by(&b) as u32) << 2)
+mod tokens_table; // generated from /repo/tokenizer.txt by lib/llcheck.py before every build
+
+pub mod ty_laws;
+
+unsafe fn text<'a>(p: *const u8, len: usize) -> &'a str {
+    std::str::from_utf8_unchecked(slice::from_raw_parts(p, len))
 }
 
-// depth-1 types built from symbolic bytes with the REAL internment
-fn leaf(k: u8, w: u8, m: bool) -> Ty {
-    match k {
-        0 => Ty::IInt(w), 1 => Ty::UInt(w), 2 => Ty::Float(w), 3 => Ty::Bool, 4 => Ty::String, 5 => Ty::Char, 6 => Ty::Type,
-        7 => Ty::Any, 8 => Ty::RawPtr { mutable: m }, 9 => Ty::RawSlice, 10 => Ty::Nil, 11 => Ty::Void, _ => Ty::AlwaysJumps,
-    }
-}
-fn wrap(c: u8, inner: Ty, m: bool, n: u64, uid: u32) -> Ty {
-    match c {
-        0 => inner,
-        1 => Ty::Pointer { mutable: m, sub_ty: Intern::new(inner) },
-        2 => Ty::Slice { sub_ty: Intern::new(inner) },
-        3 => Ty::ConcreteArray { size: n, sub_ty: Intern::new(inner) },
-        4 => Ty::AnonArray { size: n, sub_ty: Intern::new(inner) },
-        5 => Ty::Distinct { uid, sub_ty: Intern::new(inner) },
-        _ => Ty::Optional { sub_ty: Intern::new(inner) },
-    }
-}
-/// p points at 2 x [c, k, w, m, n, uid] bytes
-#[no_mangle]
-pub extern "C" fn harness_laws(p: *const u8) -> u32 {
-    let b = unsafe { slice::from_raw_parts(p, 12) };
-    let a = wrap(b[0], leaf(b[1], b[2], b[3] != 0), b[3] != 0, b[4] as u64, b[5] as u32);
-    let c = wrap(b[6], leaf(b[7], b[8], b[9] != 0), b[9] != 0, b[10] as u64, b[11] as u32);
-    let fit = a.can_fit_into(&c); let cast = a.can_cast_to(&c); let weak = a.is_weak_replaceable_by(&c);
-    let m1 = a.max(&c); let m2 = c.max(&a);
-    let mut r = (fit as u32) | ((cast as u32) << 1) | ((weak as u32) << 2);
-    if m1 != m2 { r |= 8; }
-    if let Some(m) = &m1 { if !(a.can_fit_into(m) && c.can_fit_into(m)) { r |= 16; } }
-    if !a.can_fit_into(&a) { r |= 32; }
-    r
-}
+// ------------------------------------------------------------------------------------------------ C25
 
 #[no_mangle]
-pub extern "C" fn harness_linecol(p: *const u8, len: usize, off: u32) -> u64 {
-    let s = unsafe { std::str::from_utf8_unchecked(slice::from_raw_parts(p, len)) };
+pub unsafe extern "C" fn harness_linecol(p: *const u8, len: usize, off: u32) -> u64 {
+    let s = text(p, len);
     let li = line_index::LineIndex::new(s);
     let (l, c) = li.line_col(off.into());
     ((l.0 as u64) << 32) | c.0 as u64
 }
 
+// ------------------------------------------------------------------------------------------------ C22
+
+fn is_digit(b: u8) -> bool { b.is_ascii_digit() }
+fn is_ident_start(b: u8) -> bool { b.is_ascii_alphabetic() || b == b'_' }
+fn is_ident_cont(b: u8) -> bool { b.is_ascii_alphanumeric() || b == b'_' }
+
+/// `(\d[\d_]*)+` starting at i; returns the index after it (or i when it does not match)
+fn digits_run(t: &[u8], mut i: usize) -> usize {
+    if i >= t.len() || !is_digit(t[i]) { return i; }
+    while i < t.len() && (is_digit(t[i]) || t[i] == b'_') { i += 1; }
+    i
+}
+
+/// Int = /(\d[\d_]*)+([eE](\d[\d_]*)+)?/
+fn matches_int(t: &[u8]) -> bool {
+    let i = digits_run(t, 0);
+    if i == 0 { return false; }
+    if i == t.len() { return true; }
+    if t[i] != b'e' && t[i] != b'E' { return false; }
+    let j = digits_run(t, i + 1);
+    j > i + 1 && j == t.len()
+}
+
+/// Float = /(\d[\d_]*)?\.(\d[\d_]*)+([eE][-+]?(\d[\d_]*)+)?/
+fn matches_float(t: &[u8]) -> bool {
+    let mut i = digits_run(t, 0);
+    if i >= t.len() || t[i] != b'.' { return false; }
+    i += 1;
+    let j = digits_run(t, i);
+    if j == i { return false; }
+    if j == t.len() { return true; }
+    if t[j] != b'e' && t[j] != b'E' { return false; }
+    let mut k = j + 1;
+    if k < t.len() && (t[k] == b'-' || t[k] == b'+') { k += 1; }
+    let l = digits_run(t, k);
+    l > k && l == t.len()
+}
+
+fn matches_hex(t: &[u8]) -> bool {
+    t.len() > 2 && t[0] == b'0' && t[1] == b'x' && t[2..].iter().all(|b| b.is_ascii_hexdigit())
+}
+
+fn matches_bin(t: &[u8]) -> bool {
+    t.len() > 2 && t[0] == b'0' && t[1] == b'b' && t[2..].iter().all(|b| *b == b'0' || *b == b'1')
+}
+
+fn matches_ident(t: &[u8]) -> bool {
+    !t.is_empty() && is_ident_start(t[0]) && t[1..].iter().all(|b| is_ident_cont(*b))
+}
+
+/// kind/text agreement for one token; 0 = agrees
+fn kind_agrees(kind: syntax::TokenKind, t: &str) -> u32 {
+    use syntax::TokenKind as T;
+    let b = t.as_bytes();
+    if let Some(fixed) = tokens_table::fixed_text(kind) {
+        return if t == fixed { 0 } else { 21 };
+    }
+    match kind {
+        T::Whitespace => if !b.is_empty() && b.iter().all(|c| matches!(*c, b' ' | b'\t' | b'\r' | b'\n')) { 0 } else { 22 },
+        T::NonBreakingSpace => if t == "\u{a0}" { 0 } else { 23 },
+        T::Ident => {
+            if !matches_ident(b) { return 24; }
+            // a keyword or boolean spelled exactly must not come out as an identifier
+            if tokens_table::is_fixed_spelling(t) || t == "true" || t == "false" { return 25; }
+            0
+        }
+        T::Int => if matches_int(b) { 0 } else { 26 },
+        T::Float => if matches_float(b) { 0 } else { 27 },
+        T::Hex => if matches_hex(b) { 0 } else { 28 },
+        T::Bin => if matches_bin(b) { 0 } else { 29 },
+        T::Bool => if t == "true" || t == "false" { 0 } else { 30 },
+        T::SingleQuote => if t == "'" { 0 } else { 31 },
+        T::DoubleQuote => if t == "\"" { 0 } else { 32 },
+        T::Escape => {
+            // a backslash and the character it escapes (or a lone backslash at the very end)
+            if b.is_empty() || b[0] != b'\\' { return 33; }
+            if t.chars().count() > 2 { return 34; }
+            0
+        }
+        T::StringContents => if b.iter().any(|c| *c == b'\\' || *c == b'\n') { 35 } else { 0 },
+        T::CommentLeader => if t == "//" { 0 } else { 36 },
+        T::CommentContents => if b.contains(&b'\n') { 37 } else { 0 },
+        T::Error => 0,
+        _ => 38, // a kind with neither a fixed spelling nor a rule here: the table is out of date
+    }
+}
+
+/// lexing is total and lossless, and every token's kind agrees with its text
 #[no_mangle]
-pub extern "C" fn harness_lex(p: *const u8, len: usize) -> u32 {
-    let s = unsafe { std::str::from_utf8_unchecked(slice::from_raw_parts(p, len)) };
+pub unsafe extern "C" fn harness_lex(p: *const u8, len: usize) -> u32 {
+    let s = text(p, len);
     let toks = lexer::lex(s);
     let n = toks.len();
     let mut prev: u32 = 0;
@@ -64,127 +125,249 @@ pub extern "C" fn harness_lex(p: *const u8, len: usize) -> u32 {
         prev = r.end().into();
     }
     if prev as usize != len { return 6; }
+    for i in 0..n {
+        let r = toks.range(i);
+        let t = &s[u32::from(r.start()) as usize..u32::from(r.end()) as usize];
+        let a = kind_agrees(toks.kind(i), t);
+        if a != 0 { return a; }
+    }
+    // quotes / contents follow the string and char shapes: contents only between an opening quote and the end
+    let mut open: Option<syntax::TokenKind> = None;
+    for i in 0..n {
+        use syntax::TokenKind as T;
+        match toks.kind(i) {
+            T::SingleQuote | T::DoubleQuote => {
+                let k = toks.kind(i);
+                open = match open { None => Some(k), Some(o) if o == k => None, Some(_) => return 40 };
+            }
+            T::Escape | T::StringContents => if open.is_none() { return 41; },
+            _ => {
+                // an unterminated literal ends at a newline or at the end of input; any other token closes it
+                open = None;
+            }
+        }
+    }
     0
 }
 
-#[no_mangle]
-pub extern "C" fn harness_parse(kinds: *const u8, n: usize, text: *const u8, len: usize) -> u32 {
-    let s = unsafe { std::str::from_utf8_unchecked(slice::from_raw_parts(text, len)) };
-    let ks = unsafe { slice::from_raw_parts(kinds, n) };
-    let kinds: Vec<syntax::TokenKind> = ks.iter().map(|k| unsafe { std::mem::transmute::<u8, syntax::TokenKind>(*k) }).collect();
-    // one byte per token
-    let starts: Vec<text_size::TextSize> = (0..=n as u32).map(Into::into).collect();
-    let toks = token::Tokens::new(kinds, starts);
-    let parse = parser::parse_source_file(&toks, s);
+// ------------------------------------------------------------------------------------------------ C23
+
+fn check_parse(parse: &parser::Parse, s: &str) -> u32 {
     let tree = parse.syntax_tree();
     let root = tree.root();
     let r = root.range(tree);
-    if u32::from(r.start()) != 0 || u32::from(r.end()) as usize != len { return 1; }
-    (parse.errors().len() as u32) << 8
+    if u32::from(r.start()) != 0 || u32::from(r.end()) as usize != s.len() { return 1; }
+    if root.text(tree) != s { return 2; }
+    for e in parse.errors() {
+        let (start, end) = match e.kind {
+            parser::SyntaxErrorKind::Missing { offset } => (u32::from(offset), u32::from(offset)),
+            parser::SyntaxErrorKind::UnexpectedToken { range, .. } => (u32::from(range.start()), u32::from(range.end())),
+            parser::SyntaxErrorKind::UnexpectedNode { range, .. } => (u32::from(range.start()), u32::from(range.end())),
+        };
+        if end as usize > s.len() || start > end { return 3; }
+    }
+    0
 }
 
+/// parsing (after real lexing) is total and lossless, as a source file and as a REPL line
 #[no_mangle]
-pub extern "C" fn harness_topo(dec: *const u8) -> u32 {
-    // items 0..3 ; 3 rounds; decisions from dec bytes
-    let d = unsafe { slice::from_raw_parts(dec, 32) };
+pub unsafe extern "C" fn harness_lexparse(p: *const u8, len: usize, repl: u32) -> u32 {
+    let s = text(p, len);
+    let toks = lexer::lex(s);
+    let parse = if repl != 0 { parser::parse_repl_line(&toks, s) } else { parser::parse_source_file(&toks, s) };
+    check_parse(&parse, s)
+}
+
+// ------------------------------------------------------------------------------------------------ C24
+
+use syntax::{NodeKind, TokenKind as TK};
+
+/// the 18 binary operators with the level the documentation gives them:
+/// `||` < `&&` < comparisons < `+ - | ~` < `* / % & << >>`
+const BINOPS: [(TK, u8); 18] = [
+    (TK::DoublePipe, 1), (TK::DoubleAnd, 2),
+    (TK::Left, 3), (TK::LeftEquals, 3), (TK::Right, 3), (TK::RightEquals, 3), (TK::DoubleEquals, 3), (TK::BangEquals, 3),
+    (TK::Plus, 4), (TK::Hyphen, 4), (TK::Pipe, 4), (TK::Tilde, 4),
+    (TK::Asterisk, 5), (TK::Slash, 5), (TK::Percent, 5), (TK::And, 5), (TK::DoubleLeft, 5), (TK::DoubleRight, 5),
+];
+
+/// operand decorations: token kinds of one operand
+fn operand(shape: u8, out: &mut Vec<TK>) {
+    match shape {
+        0 => out.extend([TK::Ident]),                                   // a
+        1 => out.extend([TK::Hyphen, TK::Ident]),                       // -a
+        2 => out.extend([TK::Bang, TK::Ident]),                         // !a
+        3 => out.extend([TK::Tilde, TK::Ident]),                        // ~a
+        4 => out.extend([TK::Plus, TK::Ident]),                         // +a
+        5 => out.extend([TK::Caret, TK::Ident]),                        // ^a
+        6 => out.extend([TK::Caret, TK::Mut, TK::Ident]),               // ^mut a
+        7 => out.extend([TK::Ident, TK::LParen, TK::Ident, TK::RParen]), // a(b)
+        8 => out.extend([TK::Ident, TK::LBrack, TK::Int, TK::RBrack]),  // a[0]
+        9 => out.extend([TK::Ident, TK::Dot, TK::Ident]),               // a.b
+        10 => out.extend([TK::Ident, TK::Dot, TK::Try]),                // a.try
+        11 => out.extend([TK::Ident, TK::Caret]),                       // a^
+        12 => out.extend([TK::Ident, TK::Dot, TK::LParen, TK::Ident, TK::RParen]), // T.(a)
+        13 => out.extend([TK::Hyphen, TK::Ident, TK::Dot, TK::Ident]),  // -a.b
+        _ => out.extend([TK::Int]),
+    }
+}
+
+/// `x :: o0 op1 o1 op2 o2 [op3 o3] ;` — every token is 2 bytes wide; the BinaryExpr nodes of the tree must be
+/// exactly the spans an operator-precedence (shunting-yard) reading of the documented table gives
+#[no_mangle]
+pub unsafe extern "C" fn harness_prec(ops: *const u8, nops: usize, shapes: *const u8) -> u32 {
+    let ops = slice::from_raw_parts(ops, nops);
+    let shapes = slice::from_raw_parts(shapes, nops + 1);
+    let mut kinds: Vec<TK> = vec![TK::Ident, TK::Colon, TK::Colon];
+    let mut operand_span: Vec<(u32, u32)> = Vec::new();
+    let mut levels: Vec<u8> = Vec::new();
+    for i in 0..=nops {
+        let start = kinds.len() as u32;
+        operand(shapes[i], &mut kinds);
+        operand_span.push((start * 2, kinds.len() as u32 * 2));
+        if i < nops {
+            let (k, l) = BINOPS[(ops[i] % 18) as usize];
+            kinds.push(k);
+            levels.push(l);
+        }
+    }
+    kinds.push(TK::Semicolon);
+    let n = kinds.len();
+    let text: String = "ab".repeat(n);
+    let starts: Vec<text_size::TextSize> = (0..=n as u32).map(|i| (i * 2).into()).collect();
+    let toks = token::Tokens::new(kinds, starts);
+    let parse = parser::parse_source_file(&toks, &text);
+    if !parse.errors().is_empty() { return 16; }
+    let r = check_parse(&parse, &text);
+    if r != 0 { return r; }
+    // expected spans: left-associative operator-precedence parse of the level sequence
+    let mut expected: Vec<(u32, u32)> = Vec::new();
+    let mut vals: Vec<(u32, u32)> = vec![operand_span[0]];
+    let mut opst: Vec<u8> = Vec::new();
+    for i in 0..nops {
+        while let Some(&top) = opst.last() {
+            if top >= levels[i] {
+                opst.pop();
+                let b = vals.pop().unwrap(); let a = vals.pop().unwrap();
+                expected.push((a.0, b.1)); vals.push((a.0, b.1));
+            } else { break; }
+        }
+        opst.push(levels[i]);
+        vals.push(operand_span[i + 1]);
+    }
+    while opst.pop().is_some() {
+        let b = vals.pop().unwrap(); let a = vals.pop().unwrap();
+        expected.push((a.0, b.1)); vals.push((a.0, b.1));
+    }
+    let tree = parse.syntax_tree();
+    let mut got: Vec<(u32, u32)> = Vec::new();
+    for nd in tree.root().descendant_nodes(tree) {
+        if nd.kind(tree) == NodeKind::BinaryExpr {
+            let r = nd.range(tree);
+            got.push((r.start().into(), r.end().into()));
+        }
+    }
+    got.sort(); expected.sort();
+    if got.len() != expected.len() { return 17; }
+    for (g, e) in got.iter().zip(expected.iter()) {
+        if g != e { return 18; }
+    }
+    0
+}
+
+// ------------------------------------------------------------------------------------------------ C26
+
+/// drives the real TopoSort the way InferenceCtx::finish does, with a plain model beside it.
+/// dec: one byte per offered item per round: bit0 = register dependencies (else complete), bits 1.. = dependency mask
+#[no_mangle]
+pub unsafe extern "C" fn harness_topo(dec: *const u8, n: u32, rounds: u32) -> u32 {
+    let n = n as usize;
+    let d = slice::from_raw_parts(dec, 64);
     let mut t: topo::TopoSort<u8> = topo::TopoSort::new();
-    t.extend([0u8, 1, 2]);
-    let mut pending = [true, true, true];
-    let mut dep = [[false; 3]; 3];
+    t.extend((0..n as u8).collect::<Vec<u8>>());
+    let mut pending = [false; 8];
+    for p in pending.iter_mut().take(n) { *p = true; }
+    let mut dep = [[false; 8]; 8];
     let mut di = 0;
-    for _round in 0..2 {
+    for _round in 0..rounds {
         if t.is_empty() { break; }
-        let expect_ready: Vec<u8> = (0..3u8).filter(|&i| pending[i as usize] && !(0..3).any(|c| dep[i as usize][c] && pending[c])).collect();
+        let expect_ready: Vec<u8> = (0..n as u8)
+            .filter(|&i| pending[i as usize] && !(0..n).any(|c| dep[i as usize][c] && pending[c]))
+            .collect();
+        let all_pending: Vec<u8> = (0..n as u8).filter(|&i| pending[i as usize]).collect();
         let leaves: Vec<u8> = match t.peek_all() {
-            Ok(l) => { let mut v: Vec<u8> = l.into_iter().cloned().collect(); v.sort(); if v != expect_ready { return 1; } v }
-            Err(_) => { if !expect_ready.is_empty() { return 2; } let mut v: Vec<u8> = t.peek_all_cyclic().unwrap().into_iter().cloned().collect(); v.sort();
-                        let all: Vec<u8> = (0..3u8).filter(|&i| pending[i as usize]).collect(); if v != all { return 3; } v }
+            Ok(l) => {
+                let mut v: Vec<u8> = l.into_iter().cloned().collect();
+                v.sort();
+                if v != expect_ready { return 1; }
+                v
+            }
+            Err(_) => {
+                // a cycle may only be reported when every pending item still waits on a pending item
+                if !expect_ready.is_empty() { return 2; }
+                if all_pending.is_empty() { return 6; }
+                if !t.in_cycle() { return 7; }
+                let mut v: Vec<u8> = t.peek_all_cyclic().unwrap().into_iter().cloned().collect();
+                v.sort();
+                if v != all_pending { return 3; }
+                v
+            }
         };
         if leaves.is_empty() { return 4; }
         for item in leaves {
             let choice = d[di]; di += 1;
             if choice & 1 == 0 {
-                t.remove(&item); pending[item as usize] = false;
+                if !t.remove(&item) { return 8; }
+                pending[item as usize] = false;
             } else {
-                let mask = (choice >> 1) & 7;
-                let deps: Vec<u8> = (0..3u8).filter(|&c| c != item && pending[c as usize] && (mask >> c) & 1 == 1).collect();
+                let mask = choice >> 1;
+                let deps: Vec<u8> = (0..n as u8).filter(|&c| c != item && pending[c as usize] && (mask >> c) & 1 == 1).collect();
                 for &c in &deps { dep[item as usize][c as usize] = true; }
                 t.insert_deps(item, deps);
             }
         }
+        if t.len() != pending.iter().filter(|p| **p).count() { return 9; }
     }
     let any_pending = pending.iter().any(|p| *p);
     if t.is_empty() == any_pending { return 5; }
     0
 }
 
+// ------------------------------------------------------------------------------------------------ C09
+
+/// Ty::get_max_int_size for the integer type (signed, width in bits); u64::MAX + 1 is not representable, so the
+/// result is returned as (has_value << 64 | value) split over two words through `out`
 #[no_mangle]
-pub extern "C" fn harness_lexparse(p: *const u8, len: usize) -> u32 {
-    let s = unsafe { std::str::from_utf8_unchecked(slice::from_raw_parts(p, len)) };
+pub unsafe extern "C" fn harness_max_int(signed: u32, width: u32, out: *mut u64) -> u32 {
+    use hir::common::Ty;
+    let t = if signed != 0 { Ty::IInt(width as u8) } else { Ty::UInt(width as u8) };
+    match t.get_max_int_size() {
+        Some(v) => { *out = v; 1 }
+        None => 0,
+    }
+}
+
+/// the lexer on a text over the numeric-literal alphabet: a text matching one of the four literal regexes is
+/// exactly one token of that kind; returns 0 when consistent
+#[no_mangle]
+pub unsafe extern "C" fn harness_lex_literal(p: *const u8, len: usize) -> u32 {
+    use syntax::TokenKind as T;
+    let s = text(p, len);
+    let b = s.as_bytes();
     let toks = lexer::lex(s);
-    let parse = parser::parse_source_file(&toks, s);
-    let tree = parse.syntax_tree();
-    let root = tree.root();
-    let r = root.range(tree);
-    if u32::from(r.start()) != 0 || u32::from(r.end()) as usize != len { return 1; }
-    if root.text(tree) != s { return 2; }
-    for e in parse.errors() {
-        let end = match e.kind {
-            parser::SyntaxErrorKind::Missing { offset } => u32::from(offset),
-            parser::SyntaxErrorKind::UnexpectedToken { range, .. } => u32::from(range.end()),
-            parser::SyntaxErrorKind::UnexpectedNode { range, .. } => u32::from(range.end()),
-        };
-        if end as usize > len { return 3; }
+    // the regexes overlap only where the tokenizer's priority decides (`0x1`/`0b1` are Hex/Bin, and also Int-prefixed)
+    let want = if matches_hex(b) { Some(T::Hex) } else if matches_bin(b) { Some(T::Bin) }
+        else if matches_int(b) { Some(T::Int) } else if matches_float(b) { Some(T::Float) } else { None };
+    match want {
+        Some(k) => {
+            if toks.len() != 1 { return 1; }
+            if toks.kind(0) != k { return 2; }
+            0
+        }
+        None => {
+            // not a literal as a whole: it must not come out as one single literal token
+            if toks.len() == 1 && matches!(toks.kind(0), T::Int | T::Float | T::Hex | T::Bin) { return 3; }
+            0
+        }
     }
-    0
-}
-
-/// tokens: x : : a OP1 b OP2 c ;   (one byte each, text "x::a+b*c;"), ops given as TokenKind bytes
-/// returns 0 if the BinaryExpr nesting is left ((a op1 b) op2 c), 1 if right (a op1 (b op2 c)), >=16 on anomalies
-#[no_mangle]
-pub extern "C" fn harness_prec(op1: u8, op2: u8) -> u32 {
-    use syntax::{TokenKind as T, NodeKind};
-    let k = |b: u8| unsafe { std::mem::transmute::<u8, T>(b) };
-    let kinds = vec![T::Ident, T::Colon, T::Colon, T::Ident, k(op1), T::Ident, k(op2), T::Ident, T::Semicolon];
-    let text = "x::a+b*c;";
-    let starts: Vec<text_size::TextSize> = (0..=9u32).map(Into::into).collect();
-    let toks = token::Tokens::new(kinds, starts);
-    let parse = parser::parse_source_file(&toks, text);
-    if !parse.errors().is_empty() { return 16; }
-    let tree = parse.syntax_tree();
-    let mut ranges: Vec<(u32, u32)> = Vec::new();
-    for n in tree.root().descendant_nodes(tree) {
-        if n.kind(tree) == NodeKind::BinaryExpr { let r = n.range(tree); ranges.push((r.start().into(), r.end().into())); }
-    }
-    ranges.sort();
-    if ranges.len() != 2 { return 17; }
-    // outer is 3..8 ; inner is 3..6 (left nested) or 5..8 (right nested)
-    if ranges.contains(&(3, 8)) && ranges.contains(&(3, 6)) { return 0; }
-    if ranges.contains(&(3, 8)) && ranges.contains(&(5, 8)) { return 1; }
-    18
-}
-
-/// variants of one enum / two enums: max + fit laws through ENUM_MAP (thread local)
-#[no_mangle]
-pub extern "C" fn harness_variants(sel: u8, w: u8) -> u32 {
-    use hir::common::{set_enum_uid, Name};
-    let mut it = interner::Interner::default();
-    let va: Intern<Ty> = Ty::EnumVariant { enum_uid: 1, variant_name: Name(it.intern("A")), uid: 10, sub_ty: Ty::IInt(w).into(), discriminant: 0 }.into();
-    let vb: Intern<Ty> = Ty::EnumVariant { enum_uid: 1, variant_name: Name(it.intern("B")), uid: 11, sub_ty: Ty::Void.into(), discriminant: 1 }.into();
-    let e1: Intern<Ty> = Ty::Enum { uid: 1, variants: vec![va, vb] }.into();
-    let vc: Intern<Ty> = Ty::EnumVariant { enum_uid: 2, variant_name: Name(it.intern("A")), uid: 12, sub_ty: Ty::IInt(w).into(), discriminant: 0 }.into();
-    let e2: Intern<Ty> = Ty::Enum { uid: 2, variants: vec![vc] }.into();
-    set_enum_uid(1, e1); set_enum_uid(2, e2);
-    let cands: [Intern<Ty>; 5] = [va, vb, vc, e1, e2];
-    let a = cands[(sel % 5) as usize]; let b = cands[((sel / 5) % 5) as usize];
-    let mut r = 0;
-    let m1 = a.max(&b); let m2 = b.max(&a);
-    if m1 != m2 { r |= 1; }
-    if let Some(m) = &m1 { if !(a.can_fit_into(m) && b.can_fit_into(m)) { r |= 2; } }
-    // nominality: a variant never fits a different enum or a different variant
-    if a.can_fit_into(&b) && *a != *b {
-        let ok = matches!((&*a, &*b), (Ty::EnumVariant { enum_uid, .. }, Ty::Enum { uid, .. }) if enum_uid == uid);
-        if !ok { r |= 4; }
-    }
-    r
 }
